@@ -187,7 +187,7 @@ def r2c_nan_skipping_folds(rule, root=None):
 def run(ctx):
     r = ctx.rule("R1", "all eight evaluators check their arguments first and return the error; the checks cover every supplied slice", 12)
     ctx.guarded(r, r1_checks_dominate)
-    r = ctx.rule("R2", "no Interval::new site can receive one NaN and one non-NaN bound (float-class abstract interpretation)", 30)
+    r = ctx.rule("R2", "no Interval::new site can receive one NaN and one non-NaN bound (float-class abstract interpretation)", 50)
     ctx.guarded(r, r2_nanflow)
     r = ctx.rule("R2c", "no Interval::new bound is a min/max accumulation from a constant seed (min/max skip NaN)", 40)
     ctx.guarded(r, r2c_nan_skipping_folds)
